@@ -160,12 +160,7 @@ def model_of(prog: dict) -> dict:
                 params = {p: pt.make_size_param(p) for p in t["params"]}
 
                 def dim_pt(d: Any) -> Any:
-                    if isinstance(d, int):
-                        return d
-                    if isinstance(d, str):
-                        return params[d]
-                    nm, c, off = d
-                    return c * params[nm] + off
+                    return c16.dim_to_pt(d, params)
                 ins = {nm: pt.make_placeholder(nm, tuple(dim_pt(d) for d in shp), np.float64)
                        for nm, (shp, _) in t["inputs"].items()}
                 outs = t["build"](pt, ins, params)
